@@ -247,7 +247,8 @@ class Generator(AbstractODSGenerator):
             transaction_day=transaction.timestamp.day,
             transaction_client=_(self.TRANSFER),
             sales_crypto_amount=transaction_fee_in_crypto if transaction_fee_in_crypto > ZERO else None,
-            sales_amount_in_yen=transaction_fee_in_yen if transaction_fee_in_yen > ZERO else None,
+            # The yen amount is reported whenever the crypto fee is: its value can be below RP2Decimal comparison precision
+            sales_amount_in_yen=transaction_fee_in_yen if transaction_fee_in_crypto > ZERO else None,
             fee_in_yen=ZERO,
             gift=ZERO,
         )
